@@ -470,3 +470,5 @@ M("c16-twin-memo-str", "C16", J, "        model_state = repr(self.model)\n", "  
 M("c16-inverse-cancellation", "C16", VT, "    hs = 4 * d**2 * s / (root + factor)\n", "    hs = (root - factor) / (4 * s)\n", rules=["C16.closed"], what="original defect (third audit C16#4)")
 M("c05-twin-generic-early-exit", "C05", D, "        args_with_default = list(self.parameters.values())\n", "        args_with_default = list(self.parameters.values())\n        if not args and not kwargs:\n            return args_with_default\n", expect="pass")
 M("c05-generic-early-exit-truthy", "C05", D, "        args_with_default = list(self.parameters.values())\n", "        args_with_default = list(self.parameters.values())\n        if not (any(args) or kwargs):\n            return args_with_default\n", rules=["C05.generic"], what="seed C05-r4b: a positional override 0 is skipped")
+M("c07-seed-zero-truthy", ["C07", "C05"], J, "        if random_state is not None:\n            # if random_state already is a np.random.Generator", "        if random_state:\n            # if random_state already is a np.random.Generator", rules={"C07": ["C07.seedzero"], "C05": ["C05.optional"]}, what="seed C07-r4b: seed 0 treated as no seed")
+M("c11-fixed-zero-truthy", ["C11", "C05"], D, "        if self.f_mu is not None:\n            fparams[\"fscale\"] = math.exp(self.f_mu)", "        if self.f_mu:\n            fparams[\"fscale\"] = math.exp(self.f_mu)", rules={"C11": ["C11.fixedzero"], "C05": ["C05.optional"]}, what="seed C12-r4a: a mu fixed at 0 is fitted freely")
